@@ -1179,6 +1179,19 @@ class Program:
                     if not self_ref and all(plain(a_) for a_ in val_.args) and all(plain(k_.value) for k_ in val_.keywords):
                         mod.constants[nm_] = val_
                 continue
+            if isinstance(val_, ast.Dict) and val_.keys and all(
+                    isinstance(k_, ast.Constant) for k_ in val_.keys) and all(
+                    dotted(v_) is not None or isinstance(v_, ast.Constant) for v_ in val_.values) and \
+                    any(dotted(v_) is not None for v_ in val_.values):
+                # NAME = {"restricted": kernel_a, "unrestricted": kernel_b}: a dispatch table of functions fixed at import
+                # (assigned once, never stored into, no mutating method called on it anywhere in the module)
+                mutated = any(isinstance(x_, ast.Call) and isinstance(x_.func, ast.Attribute) and
+                              isinstance(x_.func.value, ast.Name) and x_.func.value.id == nm_ and
+                              x_.func.attr in ("update", "pop", "popitem", "clear", "setdefault", "__setitem__", "__delitem__")
+                              for x_ in ast.walk(mod.tree))
+                if not mutated and not any(isinstance(x_, ast.Name) and x_.id == nm_ for v_ in val_.values for x_ in ast.walk(v_)):
+                    mod.constants[nm_] = val_
+                continue
             try:
                 lit = ast.literal_eval(val_)
             except Exception:
@@ -1567,6 +1580,18 @@ class Program:
             cq, meth = qual.rsplit(".", 1)
             if cq in self.classes:
                 fi = self.lookup_method(cq, meth)
+        if fi is None and qual.count(".") == 1:
+            # module.name where the module now imports the function from another module of the package (moved and
+            # re-exported under its old name)
+            mn, nm = qual.split(".")
+            m_ = self.modules.get(mn)
+            if m_ is not None and (nm in m_.imports or nm in m_.rebinds):
+                try:
+                    r_ = self._resolve_in_module(m_, [nm])
+                except Exception:
+                    r_ = None
+                if r_ is not None and r_[0] == "func":
+                    fi = self.functions.get(r_[1])
         if fi is None:
             raise AnalysisError(f"anchor function {qual} not found")
         return fi
